@@ -641,16 +641,67 @@ impl<'a> TypeEncoder<'a> {
         index
     }
 
+    // Finds the type index of a resource referenced by an `own` or `borrow`.
+    //
+    // A resource imported or exported by the current scope is found by name. Otherwise the
+    // resource belongs to an instance of this scope (a type of a world may mention a
+    // resource of an imported interface without the world importing the resource itself),
+    // so it is aliased from the instance that exports it.
+    fn resource_index(&self, state: &mut State, res: ResourceId) -> u32 {
+        if let Some(index) = state.current.resources.get(self.0[res].name.as_str()) {
+            return *index;
+        }
+
+        if let Some(index) = state.current.type_indexes.get(&Type::Resource(res)) {
+            return *index;
+        }
+
+        let resolved = self.0.resolve_resource(res);
+        let (instance, name) = self
+            .0
+            .interfaces()
+            .find_map(|interface| {
+                let iid = interface.id.as_ref()?;
+                let instance = *state.current.instances.get(iid)?;
+                interface.exports.iter().find_map(|(name, kind)| match kind {
+                    ItemKind::Type(Type::Resource(id))
+                        if self.0.resolve_resource(*id) == resolved =>
+                    {
+                        Some((instance, name.clone()))
+                    }
+                    _ => None,
+                })
+            })
+            .unwrap_or_else(|| {
+                panic!(
+                    "resource `{name}` is not in scope",
+                    name = self.0[res].name
+                )
+            });
+
+        let index = state.current.encodable.type_count();
+        state.current.encodable.alias(Alias::InstanceExport {
+            instance,
+            kind: ComponentExportKind::Type,
+            name: &name,
+        });
+        state
+            .current
+            .type_indexes
+            .insert(Type::Resource(res), index);
+        index
+    }
+
     fn borrow(&self, state: &mut State, res: ResourceId) -> u32 {
         assert!(!state.scopes.is_empty());
-        let res = state.current.resources[self.0[res].name.as_str()];
+        let res = self.resource_index(state, res);
         let index = state.current.encodable.type_count();
         state.current.encodable.ty().defined_type().borrow(res);
         index
     }
 
     fn own(&self, state: &mut State, res: ResourceId) -> u32 {
-        let res = state.current.resources[self.0[res].name.as_str()];
+        let res = self.resource_index(state, res);
         let index = state.current.encodable.type_count();
         state.current.encodable.ty().defined_type().own(res);
         index
